@@ -207,7 +207,7 @@ func (c c11Case) String() string {
 
 func c11Gen(rt *rapid.T) c11Case {
 	var c c11Case
-	c.op = rapid.SampledFrom([]string{"Constant", "ConstantOfShape", "Cast", "Cast"}).Draw(rt, "op")
+	c.op = drawOp(rt, []string{"Constant", "ConstantOfShape", "Cast", "Cast"})
 	c.valid = true
 	switch c.op {
 	case "Constant":
